@@ -224,6 +224,45 @@ func initTimeStubs() {
 		return ret(st, UF("Duration_String", StringSort, args[0].(*Term)))
 	}
 	stubTable["time.Sleep"] = stubZero
+	// process environment (keys must be concrete): unset = ""
+	envKey := func(v Value) string {
+		k := v.(*Term)
+		if !k.IsConst() {
+			fail("environment variable name must be concrete")
+		}
+		return k.S
+	}
+	stubTable["os.Setenv"] = func(e *Exec, st *State, fn *Func, args []Value, site string) []Outcome {
+		k := envKey(args[0])
+		if e.conc != nil {
+			e.conc.envOp(e, st, "set", k, args[1].(*Term), site)
+		} else {
+			if st.Ghost == nil {
+				st.Ghost = map[string]Value{}
+			}
+			st.Ghost["env:"+k] = args[1]
+		}
+		return ret(st, Iface{})
+	}
+	stubTable["os.Unsetenv"] = func(e *Exec, st *State, fn *Func, args []Value, site string) []Outcome {
+		k := envKey(args[0])
+		if e.conc != nil {
+			e.conc.envOp(e, st, "set", k, StrConst(""), site)
+		} else if st.Ghost != nil {
+			st.Ghost["env:"+k] = StrConst("")
+		}
+		return ret(st, Iface{})
+	}
+	stubTable["os.Getenv"] = func(e *Exec, st *State, fn *Func, args []Value, site string) []Outcome {
+		k := envKey(args[0])
+		if e.conc != nil {
+			return ret(st, e.conc.envOp(e, st, "get", k, nil, site))
+		}
+		if v, ok := st.Ghost["env:"+k]; ok {
+			return ret(st, v)
+		}
+		return ret(st, StrConst(""))
+	}
 	// tickers and timers: the channel is driven by the environment (see conc.go); d <= 0 panics for NewTicker
 	mkTimer := func(kind string) StubFn {
 		return func(e *Exec, st *State, fn *Func, args []Value, site string) []Outcome {
